@@ -6,6 +6,7 @@ func init() {
 	runners["C03"] = func(c *Ctx) {
 		c.Rep.Rule = "struct-level Validate cases: a valid Response with 1..5 assertions plus zero, one (uniform position) or several injected faults; non-trivial = at least one fault; distinct by (fault names, position, assertion count)"
 		runValidateStruct(c, c.N(1500, 30000), false)
+		runResponseStream(c, c.N(250, 5000), "C03")
 	}
 	runners["C05"] = func(c *Ctx) {
 		c.Rep.Rule = "struct-level Validate and VerifyAssertionConditions cases with the clock placed at offsets {0, +-1ns, +-1s, +-1h, +-0.5s} from each bound, random zone/fraction renderings, missing and malformed bounds; non-trivial = clock within 1s of a bound or error case; distinct by (offsets, error, position)"
